@@ -137,6 +137,25 @@ func c02KindTable(r *an.Run) {
 			table[k] = joinSorted(phiEdgesFrom(phi, c.Target))
 			lastElse = c.Else
 		}
+		// the switch as data: `t, known := table[decl.Type.Name]` on a package-level map of constants that only
+		// the package initialiser writes
+		var tableLookup *ssa.Lookup
+		if len(cases) == 0 {
+			for _, b := range f.Blocks {
+				for _, in := range b.Instrs {
+					lk, ok := in.(*ssa.Lookup)
+					if !ok || !lk.CommaOk || !strings.HasSuffix(an.Path(lk.Index), ".Type.Name") {
+						continue
+					}
+					if entries, okTab := constantMapEntries(r, lk.X); okTab {
+						tableLookup = lk
+						for k, v := range entries {
+							table[k] = v
+						}
+					}
+				}
+			}
+		}
 		want := map[string]string{"identifier": "const:" + itoa(identT), "expression": "const:" + itoa(exprT)}
 		for k, v := range want {
 			r.Check(table[k] == v, short(f)+"|"+k, f.Pos(), "metavariable type %q is compiled to kind %s (got %q)", k, v, table[k])
@@ -147,14 +166,44 @@ func c02KindTable(r *an.Run) {
 			}
 		}
 		// default arm: error, no entry
-		var upd *ssa.MapUpdate
-		for _, in := range an.StoresIn(f) {
-			if mu, ok := in.(*ssa.MapUpdate); ok && strings.HasSuffix(an.ShortType(mu.Value.Type()), "MetavarType") {
-				upd = mu
+		upd, kindStored := declarationWrite(f)
+		if tableLookup != nil {
+			// table form: the kind is the looked-up value, an unknown name takes the !known edge
+			var tv, okv ssa.Value
+			for _, u := range *tableLookup.Referrers() {
+				if ex, isEx := u.(*ssa.Extract); isEx {
+					if ex.Index == 0 {
+						tv = ex
+					} else {
+						okv = ex
+					}
+				}
 			}
-		}
-		if r.Check(upd != nil && lastElse != nil && phi != nil, short(f)+"|table-write", f.Pos(), "compileMeta writes the kind computed by the type switch into the table") {
-			r.Check(upd.Value == ssa.Value(phi), short(f)+"|table-value", upd.Pos(), "the value stored for a name is the kind selected by its declaration's type")
+			if r.Check(upd != nil && tv != nil && okv != nil, short(f)+"|table-write", f.Pos(), "compileMeta writes the kind looked up for the declaration's type into the table") {
+				r.Check(kindStored == tv, short(f)+"|table-value", upd.Pos(), "the value stored for a name is the kind selected by its declaration's type")
+				brs := an.BranchesOn(f, okv)
+				reportsErr := false
+				unknownWrites := true
+				if len(brs) > 0 {
+					unknownWrites = !unreachableWithout(upd.Block(), edgesWhen(brs, true))
+					outer := an.LoopOf(f, tableLookup.Block())
+					for _, br := range brs {
+						start := br.If.Block().Succs[br.EdgeWhen(false)]
+						reach := an.Reach([]*ssa.BasicBlock{start}, func(b *ssa.BasicBlock, i int) bool { return outer != nil && b.Succs[i] == outer.Header })
+						for b := range reach {
+							for _, in := range b.Instrs {
+								if c, ok := in.(*ssa.Call); ok && an.StaticCallee(c) == r.P.Func(engine, "compiler.errf") {
+									reportsErr = true
+								}
+							}
+						}
+					}
+				}
+				r.Check(!unknownWrites && reportsErr, short(f)+"|unknown-type", tableLookup.Pos(), "an unknown metavariable type is reported through errf and creates no table entry")
+			}
+			r.Count("kind table entries", len(table))
+		} else if r.Check(upd != nil && lastElse != nil && phi != nil, short(f)+"|table-write", f.Pos(), "compileMeta writes the kind computed by the type switch into the table") {
+			r.Check(kindStored == ssa.Value(phi), short(f)+"|table-value", upd.Pos(), "the value stored for a name is the kind selected by its declaration's type")
 			outer := an.LoopOf(f, cases[0].If.Block())
 			for l := outer; l != nil; {
 				// use the outermost loop containing the switch
@@ -181,7 +230,9 @@ func c02KindTable(r *an.Run) {
 			}
 			r.Check(!reach[upd.Block()] && reportsErr, short(f)+"|unknown-type", lastElse.Instrs[0].Pos(), "an unknown metavariable type is reported through errf and creates no table entry")
 		}
-		r.Count("kind table entries", len(table))
+		if tableLookup == nil {
+			r.Count("kind table entries", len(table))
+		}
 	}
 	// compileIdent (matcher): kind -> predicate
 	if f := fn(r, engine, "matcherCompiler.compileIdent"); f != nil {
@@ -438,16 +489,12 @@ func c02Duplicates(r *an.Run) {
 	if f == nil {
 		return
 	}
-	var upd *ssa.MapUpdate
-	for _, in := range an.StoresIn(f) {
-		if mu, ok := in.(*ssa.MapUpdate); ok && strings.HasSuffix(an.ShortType(mu.Value.Type()), "MetavarType") {
-			upd = mu
-		}
-	}
+	upd, _ := declarationWrite(f)
 	if upd == nil {
 		r.Fail(short(f)+"|table-write", f.Pos(), "no write to the metavariable table found")
 		return
 	}
+	resultIsTheDeclarations(r, f, upd)
 	// "_" guard
 	var underscore, conflict []an.CtrlEdge
 	for _, c := range an.EqCases(f, func(v ssa.Value) bool { return strings.HasSuffix(an.Path(v), ".Name") && !isAddr(v) }) {
@@ -542,4 +589,165 @@ func c02NoLeakage(r *an.Run) {
 	}
 	r.Count("stores in package data", n)
 	r.Min("stores in package data", 5)
+}
+
+// declarationWrite finds where compileMeta enters an accepted declaration: the
+// map update keyed by the declared name whose value is the kind, or a record
+// (struct) that holds the kind. It also returns the kind value that is stored.
+func declarationWrite(f *ssa.Function) (*ssa.MapUpdate, ssa.Value) {
+	var upd *ssa.MapUpdate
+	var kind ssa.Value
+	for _, in := range an.StoresIn(f) {
+		mu, ok := in.(*ssa.MapUpdate)
+		if !ok || !strings.HasSuffix(an.Path(mu.Key), ".Name") {
+			continue
+		}
+		if strings.HasSuffix(an.ShortType(mu.Value.Type()), "MetavarType") {
+			upd, kind = mu, mu.Value
+			continue
+		}
+		// a record: a struct with exactly one kind field, built in a local and stored whole
+		st, isStruct := mu.Value.Type().Underlying().(*types.Struct)
+		if !isStruct {
+			continue
+		}
+		ki := -1
+		for i := 0; i < st.NumFields(); i++ {
+			if strings.HasSuffix(an.ShortType(st.Field(i).Type()), "MetavarType") {
+				if ki >= 0 {
+					ki = -2
+					break
+				}
+				ki = i
+			}
+		}
+		if ki < 0 {
+			continue
+		}
+		if ld, isLoad := mu.Value.(*ssa.UnOp); isLoad {
+			if al, isAl := ld.X.(*ssa.Alloc); isAl && al.Referrers() != nil {
+				for _, u := range *al.Referrers() {
+					if fa, isFA := u.(*ssa.FieldAddr); isFA && fa.Field == ki {
+						for _, w := range *fa.Referrers() {
+							if s2, isSt := w.(*ssa.Store); isSt {
+								if upd == nil || !strings.HasSuffix(an.ShortType(upd.Value.Type()), "MetavarType") {
+									upd, kind = mu, s2.Val
+								}
+							}
+						}
+					}
+				}
+			}
+		}
+	}
+	return upd, kind
+}
+
+// resultIsTheDeclarations: when declarations are entered into a map of records,
+// the table compileMeta hands back is made from exactly those records: one
+// entry per record, under the record's own name, with the record's kind.
+func resultIsTheDeclarations(r *an.Run, f *ssa.Function, upd *ssa.MapUpdate) {
+	if strings.HasSuffix(an.ShortType(upd.Value.Type()), "MetavarType") {
+		return // the declarations are entered into the table itself
+	}
+	good := false
+	for _, in := range an.StoresIn(f) {
+		mu, ok := in.(*ssa.MapUpdate)
+		if !ok || mu == upd || !strings.HasSuffix(an.ShortType(mu.Value.Type()), "MetavarType") {
+			continue
+		}
+		// vars[name] = decl.Type with (name, decl) the key and value of a range over the declarations map
+		kx, ok1 := mu.Key.(*ssa.Extract)
+		var vx *ssa.Extract
+		switch v := mu.Value.(type) {
+		case *ssa.Field:
+			vx, _ = v.X.(*ssa.Extract)
+		case *ssa.UnOp:
+			if fa, isFA := v.X.(*ssa.FieldAddr); isFA {
+				if al, isAl := fa.X.(*ssa.Alloc); isAl && al.Referrers() != nil {
+					for _, u := range *al.Referrers() {
+						if s2, isSt := u.(*ssa.Store); isSt && s2.Addr == ssa.Value(al) {
+							vx, _ = s2.Val.(*ssa.Extract)
+						}
+					}
+				}
+			}
+		}
+		if !ok1 || vx == nil || kx.Tuple != vx.Tuple || kx.Index != 1 || vx.Index != 2 {
+			continue
+		}
+		nx, isNext := kx.Tuple.(*ssa.Next)
+		if !isNext {
+			continue
+		}
+		rg, isRange := nx.Iter.(*ssa.Range)
+		if isRange && rg.X == upd.Map {
+			good = true
+		}
+	}
+	r.Check(good, short(f)+"|result-is-the-declarations", upd.Pos(), "the table handed back is built from the recorded declarations: one entry per record, under its own name, with its kind")
+}
+
+// constantMapEntries: m is a load of a package-level map[string]T whose
+// initialiser is a literal of constants and that nothing else writes:
+// key -> "const:<value>".
+func constantMapEntries(r *an.Run, m ssa.Value) (map[string]string, bool) {
+	g := an.GlobalLoaded(m)
+	if g == nil || g.Pkg == nil {
+		return nil, false
+	}
+	out := map[string]string{}
+	var made ssa.Value
+	fns := r.P.ModuleFuncs()
+	if init := g.Pkg.Func("init"); init != nil {
+		fns = append(append([]*ssa.Function{}, fns...), init)
+	}
+	seenFn := map[*ssa.Function]bool{}
+	for _, h := range fns {
+		if seenFn[h] {
+			continue
+		}
+		seenFn[h] = true
+		for _, b := range h.Blocks {
+			for _, in := range b.Instrs {
+				if st, ok := in.(*ssa.Store); ok && st.Addr == ssa.Value(g) {
+					if h.Name() != "init" || made != nil {
+						return nil, false
+					}
+					made = st.Val
+				}
+			}
+		}
+	}
+	if made == nil {
+		return nil, false
+	}
+	seenFn = map[*ssa.Function]bool{}
+	for _, h := range fns {
+		if seenFn[h] {
+			continue
+		}
+		seenFn[h] = true
+		for _, b := range h.Blocks {
+			for _, in := range b.Instrs {
+				mu, ok := in.(*ssa.MapUpdate)
+				if !ok {
+					continue
+				}
+				if mu.Map != made && an.GlobalLoaded(mu.Map) != g {
+					continue
+				}
+				if h.Name() != "init" {
+					return nil, false
+				}
+				k, okK := an.ConstString(mu.Key)
+				v, okV := an.ConstInt(mu.Value)
+				if !okK || !okV {
+					return nil, false
+				}
+				out[k] = "const:" + itoa(v)
+			}
+		}
+	}
+	return out, len(out) > 0
 }
